@@ -5,6 +5,7 @@ import tempfile
 
 from . import schema as S
 from . import pyleg as P
+from . import shadows
 from .wire import make_env
 
 
@@ -70,6 +71,7 @@ def _fail(res, check, env, g, vec, what, **kw):
         d["walk"] = vec["walk"]
         if "outL" in vec:
             d["outL"] = _hex(vec["outL"])
+    d["features"] = shadows.features(env, len(env.defs), g.get("lay"))
     d.update(kw)
     res["fails"].append(d)
 
